@@ -611,6 +611,11 @@ def parent_parsers_context(key, parser):
         parent_parsers.reset(token)
 
 
+def _check_subcommand_settings(key: str, value: Any) -> None:
+    if not isinstance(value, Namespace):
+        raise TypeError(f'Expected the settings of subcommand "{key}" to be a mapping, but got: {value!r}')
+
+
 class _ActionSubCommands(_SubParsersAction):
     """Extension of argparse._SubParsersAction to modify subcommands functionality."""
 
@@ -669,7 +674,10 @@ class _ActionSubCommands(_SubParsersAction):
         # parse arguments
         if subcommand in self._name_parser_map:
             subparser = self._name_parser_map[subcommand]
-            subnamespace = namespace.get(subcommand).clone() if subcommand in namespace else None
+            subnamespace = namespace.get(subcommand) if subcommand in namespace else None
+            if subnamespace is not None:
+                _check_subcommand_settings(subcommand, subnamespace)
+                subnamespace = subnamespace.clone()
             kwargs = dict(_skip_validation=True, **parse_kwargs.get())
             namespace[subcommand] = subparser.parse_args(arg_strings, namespace=subnamespace, **kwargs)
 
@@ -792,6 +800,8 @@ class _ActionSubCommands(_SubParsersAction):
                     subnamespace = subparser.get_defaults(skip_validation=True)
 
             # Update all subcommand settings
+            if cfg.get(key) is not None:
+                _check_subcommand_settings(key, cfg.get(key))
             if subnamespace is not None:
                 cfg[key] = subparser.merge_config(cfg.get(key) or Namespace(), subnamespace)
 
